@@ -35,13 +35,13 @@ var NotApplicable = []NA{
 	{"C01", "pure codec over inputs (all headers, lengths, byte strings): no transport, fault, schedule or history in its statement; deterministic simulation has nothing to decide (DESIGN.md §5). Header parsing from a segmented transport is exercised incidentally by C04/C05/C16."},
 	{"C02", "XOR masking is a pure function of (payload, key, offset); 'any chunking' is an argument, not an environment (DESIGN.md §5). CipherReader under seeded segmentation is exercised incidentally by C04, client masking by C06/C08."},
 	{"C03", "pure predicates over (header, state) and (code, reason); the simulator uses an independent restatement of these rules as its oracle and does not test them (DESIGN.md §5)."},
-	{"C05", notYet}, {"C06", notYet}, {"C07", notYet}, {"C08", notYet},
+	{"C06", notYet}, {"C08", notYet},
 	{"C09", "decision of the upgrader over all requests of a grammar x callback configurations: a pure function of the request bytes; the simulation only ever feeds it requests written by the library's own dialer (C11) or cuts of them (C16) (DESIGN.md §5)."},
 	{"C10", "decision of the dialer over all responses of a grammar and URL forms: a pure function of response bytes and configuration; only its 'bytes after the head stay readable' clause has a delivery dimension and that is checked inside C11/C16 (DESIGN.md §5)."},
 	{"C11", notYet}, {"C12", notYet}, {"C13", notYet},
 	{"C14", "a grid of (server parameters x offers) through a pure negotiator; the only history in it (reset) is covered by C18 (DESIGN.md §5)."},
 	{"C15", "'for arbitrary bytes never panics/hangs' explored by coverage-guided mutation is fuzzing of pure decoders, not simulation; panics or frozen step counters met inside claimed properties' runs are still reported there (DESIGN.md §5)."},
-	{"C16", notYet}, {"C17", notYet}, {"C18", notYet}, {"C19", notYet}, {"C20", notYet},
+	{"C17", notYet}, {"C18", notYet}, {"C19", notYet}, {"C20", notYet},
 }
 
 var Real = []string{
@@ -69,6 +69,24 @@ var All = []*Spec{
 		LevelText: "seeded exploration: every run is one exactly repeatable execution of the real reader stack on a simulated transport; the oracle is a message-level reference model (exact payloads, headers, callback order) plus a byte ledger (no over-read). Sampling over streams x segmentations x buffer sizes, not proof.",
 		LevelNote: "trusted: reference encoder and model in /verif/ref and /verif/wire; assumes a reliable ordered byte stream that only segments (faults are C16's).",
 		DesignRef: "§4 C04", Technique: "deterministic simulation: seeded transport segmentation + reference message model"},
+	{ID: "C05", Engine: "wire", Level: "exploration", Quick: 24000, Thorough: 2400000,
+		Rule: "each run draws a valid prefix (0-3 messages, any fragmentation, interleaved controls), a position k (message open or not), one frame breaking exactly the drawn RFC 6455 rule in that state (reserved opcode, control >125, control not final, RSV without extension, wrong mask bit, nested data / stray continuation, length above a MaxFrameSize drawn around it), followed by the rest of the stream; entry point, segmentation and buffers from the seed; non-trivial = a transport read split inside the stream; distinct = trace digests",
+		Stub: stubWire, Assume: assumeCommon,
+		LevelText: "seeded exploration of (valid prefix x offending frame x state x chunking); oracle: everything before frame k delivered exactly as for a valid stream, the call asking for frame k returns ws.ProtocolError or ErrFrameTooLarge, no marker byte of frame k or later is ever delivered.",
+		LevelNote: "trusted: the RFC rule table in /verif/ref (independent of ws.CheckHeader); which rule is named is not checked.",
+		DesignRef: "§4 C05", Technique: "deterministic simulation: seeded invalid-frame injection + reference rule table"},
+	{ID: "C07", Engine: "wire", Level: "exploration", Quick: 24000, Thorough: 2400000,
+		Rule: "each run builds 1-3 text/binary messages from a structured UTF-8 cover (boundary runes of every length, overlongs, surrogates, >U+10FFFF, truncated tails, every lead byte x boundary continuation bytes), splits them into fragments at arbitrary bytes (also inside sequences), interleaves pings, and reads them through Reader{CheckUTF8}, ReadMessage, ReadData or the standalone UTF8Reader under seeded segmentation and buffer sizes; non-trivial = invalid text present or a real transport split; distinct = trace digests",
+		Stub: stubWire, Assume: append([]string{"the clause 'all byte strings up to 3 bytes' is sampled through the cover, not enumerated"}, assumeCommon...),
+		LevelText: "seeded exploration; oracle is unicode/utf8.Valid on the concatenated payload: valid <=> delivered complete without error, invalid => ErrInvalidUTF8 no later than the end and never a complete message; binary never checked; UTF8Reader.Valid() after draining equals utf8.Valid and a reject is never premature.",
+		LevelNote: "trusted: unicode/utf8 as the definition of well-formed UTF-8.",
+		DesignRef: "§4 C07", Technique: "deterministic simulation: seeded fragment/segment/buffer boundaries vs unicode/utf8 oracle"},
+	{ID: "C16", Engine: "wire", Level: "fault_enumeration", Quick: 640, Thorough: 64000, QuickCap: 150, ThorCap: 1700,
+		Rule: "workloads (stream, entry point, segmentation, application decisions) are sampled from the seed; for each workload the fault point is enumerated: every byte offset of the stream x {EOF, transport error} when the stream is <= 2 KiB (else all offsets around every header/frame boundary plus 64 seeded payload offsets), the same application decisions being replayed at every point; evaluations = workloads, fault_points_enumerated = executions; distinct = trace digests of workloads",
+		Stub: stubWire, Assume: assumeCommon,
+		LevelText: "fault enumeration: per sampled workload every cut point is executed. Oracle: units wholly before the cut are delivered exactly; no API reports success for the cut unit; a cut payload or a stream ending inside a message never yields io.EOF; control handlers never read a clean EOF before Header.Length bytes; Discard of a cut message fails; no reply is produced from a cut control frame.",
+		LevelNote: "a cut inside a header while no message is open only has to be an error (io.EOF included); ws.ReadFrame only has to return an error; which error is not checked.",
+		DesignRef: "§4 C16", Technique: "deterministic simulation: exhaustive cut-point enumeration per seeded workload"},
 }
 
 func Find(id string) *Spec {
